@@ -16,7 +16,7 @@ from .calc import Poly, Rat, Unsupported
 from .facts import strip, peel_refs, pat_bindings, lit_number
 
 TINY = Fraction(1, 10 ** 6)
-PASS = {"as_single_targets", "as_targets", "view", "to_owned", "clone", "iter", "into_iter", "to_vec", "unwrap", "ok_or", "ok_or_else",
+PASS = {"as_single_targets", "as_targets", "as_multi_targets", "view", "to_owned", "clone", "iter", "into_iter", "to_vec", "unwrap", "ok_or", "ok_or_else",
         "expect", "copied", "cloned", "into_owned", "reborrow", "into_scalar", "borrow", "as_ref", "into", "deref", "to_f32", "to_f64",
         "as_slice", "as_slice_memory_order", "insert_axis", "into_shape", "reshape", "flatten", "into_dimensionality", "unwrap_or_default"}
 ELEMFN = ("abs", "ln", "sqrt", "clip", "exp")
@@ -190,7 +190,12 @@ class Formula:
         return V("scal", Rat.const(cv))
 
     def binop(self, op, a, b):
-        kind = "elem" if "elem" in (a.kind, b.kind) else "scal"
+        if "elem2" in (a.kind, b.kind):
+            if "elem" in (a.kind, b.kind):
+                raise Unsupported("broadcast of a vector against a matrix")
+            kind = "elem2"
+        else:
+            kind = "elem" if "elem" in (a.kind, b.kind) else "scal"
         if op == "+":
             r = a.r + b.r
         elif op == "-":
@@ -389,7 +394,7 @@ class Formula:
         if nm in ("sub", "add", "mul", "div") and len(args) == 1:
             return self.binop({"sub": "-", "add": "+", "mul": "*", "div": "/"}[nm], recv, self.expr(c, args[0], env))
         if nm in ("mapv", "map", "mapv_into", "mapv_inplace", "map_inplace") and len(args) == 1:
-            v = self.closure_apply(c, args[0], [V("elem" if recv.kind == "elem" else "scal", recv.r)], env)
+            v = self.closure_apply(c, args[0], [V(recv.kind, recv.r)], env)
             return V(recv.kind, v.r)
         if nm == "zip" and len(args) == 1:
             other = self.expr(c, args[0], env)
@@ -413,6 +418,28 @@ class Formula:
             if cv == Fraction(1, 2):
                 return V(recv.kind, self.fn_atom("sqrt", recv.r))
             raise Unsupported("power")
+        if nm in ("sum_axis", "mean_axis") and len(args) == 1 and recv.kind == "elem2":
+            ax = peel_refs(args[0])
+            axv = None
+            if ax.get("k") == "Call" and len(ax["args"]) == 1:
+                axv = self.const_of(c, ax["args"][0])
+            if axv is None:
+                raise Unsupported("axis of the reduction")
+            tot = self.total(recv.r) if axv == 0 else self.total(recv.r, what="Sacross")
+            if nm == "mean_axis":
+                tot = tot / (self.atom("n") if axv == 0 else self.atom("k"))
+            return V("scal", tot)
+        if nm in ("sum", "mean") and not args and recv.kind == "elem2":
+            tot = self.total(recv.r, what="SS")
+            if nm == "mean":
+                tot = tot / (self.atom("n") * self.atom("k"))
+            return V("scal", tot)
+        if nm in ("nrows", "nsamples") and not args and recv.kind == "elem2":
+            return V("scal", self.atom("n"))
+        if nm in ("ncols", "ntargets") and not args and recv.kind == "elem2":
+            return V("scal", self.atom("k"))
+        if nm == "len" and not args and recv.kind == "elem2":
+            return V("scal", self.atom("n") * self.atom("k"))
         if nm in ("sum", "product") and nm == "sum":
             if recv.kind != "elem":
                 raise Unsupported("sum of a scalar")
